@@ -193,6 +193,34 @@ def infer_chain(tree, src):
                      "hash": py2v.src_hash(f, src), "value": [f"{'|'.join(c)}->{a}" for c, _, a in entries]}
 
 
+SEL_COLUMNS = '''
+sel_columns = [
+    (
+        F.col(name).cast(data_type).alias(name).expression
+        if data_type is not None
+        else F.col(name).expression
+    )
+    for name, data_type in column_mapping.items()
+]
+'''
+
+
+def cells_and_casts(tree, src):
+    """every cell of the VALUES clause is F.lit(x); every typed column is CAST to its type"""
+    cdf = py2v.find_method(tree, "_BaseSession", "createDataFrame")
+    sel = [n for n in ast.walk(cdf) if isinstance(n, ast.Assign) and dotted(n.targets[0]) == "sel_columns"
+           and isinstance(n.value, ast.ListComp)]
+    if len(sel) != 1 or canon(sel) != canon_src(SEL_COLUMNS):
+        raise Untranslatable("createDataFrame: the per-column CAST (sel_columns) changed")
+    lits = [n for n in ast.walk(cdf) if isinstance(n, ast.Attribute) and n.attr == "column_expression"
+            and isinstance(n.value, ast.Call) and dotted(n.value.func) == "F.lit"]
+    tuples = [n for n in ast.walk(cdf) if isinstance(n, ast.Call) and dotted(n.func) == "exp.tuple_"]
+    if len(lits) != 2 or len(tuples) != 3:
+        raise Untranslatable("createDataFrame: VALUES cells are no longer built with F.lit(x).column_expression")
+    return {"name": "cells_are_lit_and_typed_columns_are_cast", "where": f"sqlframe/base/session.py:{cdf.lineno}-{cdf.end_lineno}",
+            "hash": py2v.src_hash(sel[0], src), "value": True}
+
+
 # ---- Column._lit ---------------------------------------------------------------------------------
 
 A_STRUCT = '''
@@ -467,6 +495,7 @@ def generate(repo: str):
     facts = []
     ich, fa = infer_chain(s_tree, s_src)
     facts.append(fa)
+    facts.append(cells_and_casts(s_tree, s_src))
     lch, fa = lit_chain(c_tree, c_src)
     facts.append(fa)
     facts.append(column_init(c_tree, c_src))
